@@ -5,23 +5,23 @@ HERE = os.path.dirname(os.path.dirname(os.path.abspath(__file__)))
 CHECKS = {
  # id: (technique, level text, level note, design_ref)
  "C09": ("runtime monitor: tokenizer invariants + specification-tokenizer differential over exhaustive short strings and random texts",
-         "Held on every execution observed: tokenize() is run on all strings of <=4 (quick) / <=5 (thorough) symbols over a 32-symbol alphabet covering every character class, on keyword edits, random Unicode texts and long literals; each result is checked against model-free partition invariants and against an independent specification tokenizer. Exhaustive within the enumerated space, sampled beyond it.",
+         "Held on every execution observed: tokenize() is run on all strings of <=4 (quick) / <=5 (thorough) symbols over a 34-symbol alphabet covering every character class (incl. a byte order mark and a regional indicator), on all sequences of <=3 / <=4 symbols whose grapheme-cluster boundaries depend on their predecessors, on keyword edits, random Unicode texts and long literals; each result is checked against model-free partition invariants and against an independent specification tokenizer. Exhaustive within the enumerated space, sampled beyond it.",
          "Trusts Rust's char classification, unicode-segmentation grapheme boundaries and num-bigint comparison; the reference tokenizer (harness/src/rtok.rs) is the specification of DESIGN.md A.1/A.2.",
          "DESIGN.md section 4, C09"),
  "C10": ("runtime monitor: metamorphic re-layout under the layout rule + exhaustive bigram/filler table + specification-tokenizer differential",
-         "Held on every execution observed: 20 rule-conforming re-layouts of each corpus/generated program and token soup must leave the token stream and the parse result unchanged; every token-kind bigram x 14 gap fillers is judged by the rule; all strings of <=6 (quick) / <=7 (thorough) symbols over a layout alphabet are compared with the specification tokenizer.",
+         "Held on every execution observed: 20 rule-conforming re-layouts of each corpus/generated program and token soup must leave the token stream and the parse result unchanged; every token-kind bigram x 19 gap fillers (non-ASCII white space, vertical tab, comments containing a bare CR included) is judged by the rule; all strings of <=6 (quick) / <=7 (thorough) symbols over a layout alphabet are compared with the specification tokenizer.",
          "The layout rule of DESIGN.md A.2 is the specification (a terminator directly after `}` is a don't-care). Trusts Rust's char classification.",
          "DESIGN.md section 4, C10"),
  "C13": ("runtime monitor: byte comparison of repeated process launches and of repeated in-process parses (fresh hash keys each time)",
-         "Held on every execution observed: files built to yield several order-sensitive diagnostics are launched repeatedly through `gram check` and `gram run` and must be byte-identical (stdout, stderr, status); every file is also pushed 20 times through tokenize+parse(+type_check) in-process. Probabilistic reach: a k-way order dependence survives N launches with probability (1/k!)^(N-1).",
+         "Held on every execution observed: files built to yield several order-sensitive diagnostics (definition-order, scoping with look-alike names, type and parse errors, generated programs with a planted fault) and programs that evaluate for seconds are launched repeatedly through `gram check` and `gram run` and must be byte-identical (stdout, stderr, status); every file is also pushed 20 times through tokenize+parse(+type_check) in-process. Probabilistic reach: a k-way order dependence survives N launches with probability (1/k!)^(N-1).",
          "Assumes std RandomState draws a fresh key per process and per HashSet/HashMap instance (true for the pinned toolchain). Process launches are capped by the sandbox's launch rate (about 100/s).",
          "DESIGN.md section 4, C13"),
  "C14": ("runtime monitor: panic capture and Err-nonempty checks around each library stage in isolated workers + process-boundary contract monitor of `gram check`",
          "Held on every execution observed: all byte strings <=2 bytes, all token sequences <=4 (quick) / <=5 (thorough) tokens, random bytes incl. invalid UTF-8, token soups, every single-token mutant and truncation of the corpus, nesting families to depth 200; no stage panicked, no Err was empty, parse stayed under its logical work cap, and `gram check` kept its exit-status/stdout/stderr contract on the subset sent through the real binary.",
          "Library stages are observed in the harness build of gram's sources (checked arithmetic); wall-clock timeouts and stack exhaustion at the process boundary are inconclusive, never violations.",
          "DESIGN.md section 4, C14"),
- "C17": ("runtime monitor: logical work counters (parse-function and definition-order-check invocations, hooks, with abort cap) and guest instruction counts under valgrind cachegrind, over parameterised input families",
-         "Held on every execution observed: for 34 families x 3 forms x sizes 16..2048 (quick) / 4096 (thorough) the number of parse-function invocations and of definition-order checks stayed linear (local exponent <= 2.5, never above the quadratic cap), and the instruction count of tokenize+parse measured under valgrind for sizes 64..512 (quick) / 2048 (thorough) grew with a local exponent of at most 1.4.",
+ "C17": ("runtime monitor: logical work counters (parse-function, definition-order-check and post-parse-pass invocations, hooks, with abort cap) and guest instruction counts under valgrind cachegrind, over parameterised input families",
+         "Held on every execution observed: for 34 families x 3 forms x sizes 16..2048 (quick) / 4096 (thorough) the number of parse-function invocations and of definition-order checks stayed linear (local exponent <= 2.5, never above the quadratic cap), the same held for the invocations of the post-parse passes (error collection, re-association, resolution, definition traversal) and on 436 (quick) / 1332 (thorough) nested templates built from 36 one-hole contexts, and the instruction count of tokenize+parse measured under valgrind for sizes 64..512 (quick) / 2048 (thorough) grew with a local exponent of at most 1.4.",
          "Observational bound over families, not all inputs. CPU time is recorded but only triggers a re-measurement by instruction count; it never decides (it is load-dependent on this machine). valgrind unavailable = inconclusive.",
          "DESIGN.md section 4, C17"),
  "C01": ("runtime monitor: the harness drives evaluator::step under a step budget on every accepted program and classifies the stuck redex by walking the evaluation context",
@@ -33,11 +33,11 @@ CHECKS = {
          "R-eval (harness/src/reval.rs) is the semantics of DESIGN.md A.7; gram's step budget is 20 x reference reductions + 200 (logical, not wall clock).",
          "DESIGN.md section 4, C02"),
  "C03": ("runtime monitor: an independent NbE type checker (R-core) judges every elaborated (term, type) pair; ill-typed perturbations must be rejected",
-         "Held on every execution observed: each pair returned by type_check on explicit, inferred, perturbed and corpus programs was re-checked by R-core (scoping, typing, reported type); every explicit program R-core judges ill-typed was rejected with a diagnostic. Violations on programs with holes whose check passed an unresolved hole through open/signed_shift (hook counters) are the recorded finding.",
+         "Held on every execution observed: each pair returned by type_check on explicit, inferred, perturbed (explicit and inferred, incl. planted wrong-type traps behind decoy definitions) and corpus programs, on all programs of <=5/6 nodes and on a 6360-cell matrix of higher-order polymorphic calls with written or omitted binder annotations was re-checked by R-core (scoping, typing, reported type); every explicit program R-core judges ill-typed was rejected with a diagnostic. Violations on programs with holes whose check passed an unresolved hole through open/signed_shift (hook counters) are the recorded finding.",
          "R-core implements DESIGN.md A.5/A.6 with named closures (no de Bruijn arithmetic); reference fuel exhaustion is inconclusive.",
          "DESIGN.md section 4, C03"),
  "C04": ("runtime monitor: head-shape table and full reference re-check of the evaluated value against the reported type",
-         "Held on every execution observed: for accepted programs that produced a value, the value's head matches the weak-head form of the reported type and R-core infers for the value a type convertible to the reported one.",
+         "Held on every execution observed: for accepted programs (generated, corpus, and whatever the checker still accepts among single-point perturbations and planted traps) that produced a value, the value's head matches the weak-head form of the reported type and R-core infers for the value a type convertible to the reported one.",
          "R-core is the typing reference; programs that do not produce a value within the step budget are not judged.",
          "DESIGN.md section 4, C04"),
  "C05": ("runtime monitor: reference verdict and intended type on type-directed explicit programs versus gram's; exact structural diff of parse output and elaborated term",
@@ -45,7 +45,7 @@ CHECKS = {
          "Two independent expectations (R-core, generator). Syntactic rejections of a printed program are not this property's subject and are counted as inconclusive (0 observed).",
          "DESIGN.md section 4, C05"),
  "C06": ("runtime monitor: evaluator trace from the harness's step loop versus normalize_weak_head/unify; symmetry; agreement with reference normal forms",
-         "Held on every execution observed: unify(t,t); unify(t, reduct) in both directions for the first 30 reducts; whnf of ground programs equals the evaluated literal; unify(a,b)=unify(b,a)=equality of R-core normal forms on pairs of same-typed hole-free terms.",
+         "Held on every execution observed: unify(t,t); unify(t, t') in both directions where t' is t with subterms behind already solved holes (shift 0-3), and whnf(t') = the evaluated literal; unify(t, reduct) in both directions for the first 30 reducts; whnf of ground programs equals the evaluated literal; unify(a,b)=unify(b,a)=equality of R-core normal forms on pairs of same-typed hole-free terms.",
          "Hole-free terms only; non-normalising pairs are skipped by construction or inconclusive on the watchdog.",
          "DESIGN.md section 4, C06"),
  "C07": ("runtime monitor: differential against an independent chart parser that reads grammar.y at run time (accept/reject, derivation count, left-associated tree)",
@@ -57,11 +57,11 @@ CHECKS = {
          "Scoping rules are DESIGN.md A.4; for rejected programs the expected diagnostics must be among those reported.",
          "DESIGN.md section 4, C08"),
  "C11": ("runtime monitor: differential against capture-avoiding operations on named terms plus algebraic laws, exhaustive over small terms",
-         "Held on every execution observed: signed_shift, unsigned_shift, open and free_variables agree with the named reference and satisfy the laws on every hole-free term of <=4 (quick) / <=5 (thorough) nodes over all formers, on all groups of 2 and 3 definitions with atomic parts, for cutoffs/indices 0-3, amounts -3..3 and 20 inserted terms, and on random terms up to 200 nodes.",
+         "Held on every execution observed: signed_shift, unsigned_shift, open and free_variables agree with the named reference and satisfy the laws on every hole-free term of <=4 (quick) / <=5 (thorough) nodes over all formers, on all groups of 2 and 3 definitions with atomic parts, on sampled groups of 4-8 definitions under 0-2 binders, for cutoffs/indices 0-3, amounts -3..3 and 20 inserted terms, and on random terms up to 200 nodes.",
          "Hole-free terms only, as the property states.",
          "DESIGN.md section 4, C11"),
  "C12": ("runtime monitor: inspection of hole cells after unify() on constructed (pattern, instance) pairs: cycles, scope of solutions, reference conversion of the filled-in terms",
-         "Held on every execution observed: after every successful unification no cell is reachable from its own content, every solution is closed with respect to the scope its hole was written in, and the two terms with solutions filled in are convertible for R-core; failures of the last kind on pairs whose unification passed an unresolved hole through open/signed_shift are the recorded finding.",
+         "Held on every execution observed: after every successful unification no cell is reachable from its own content, every solution is closed with respect to the scope its hole was written in, and the two terms with solutions filled in are convertible for R-core (pairs: punched terms against the original / beta-expanded / definition-wrapped term, parts of either side optionally behind already solved holes; unrelated terms; a term against a structurally edited well-typed copy; 35 hand-made configurations); failures of the last kind on pairs whose unification passed an unresolved hole through open/signed_shift are the recorded finding.",
          "Only successes are judged. Base terms are generated without recursive definitions (unify legitimately diverges on them once a hole defeats the syntactic shortcut).",
          "DESIGN.md section 4, C12"),
  "C15": ("runtime monitor: specification listing (R-listing) differential, fault injection with spans known from the printer, range => re-parse round trip of every node",
@@ -77,8 +77,8 @@ CHECKS = {
          "Contexts are built from explicit (hole-free) programs.",
          "DESIGN.md section 4, C18"),
  "C19": ("runtime monitor: metamorphic relation between two runs of the full pipeline under meaning-preserving rewrites (no reference model)",
-         "Held on every execution observed: 10 sequences of 1-5 rewrites per program (renaming, parentheses, unused definitions, naming a subexpression, identity wrap, if-true wrap, swapping function definitions, hoisting literal arithmetic) left acceptance and printed value unchanged; changes on inferred programs whose check passed an unresolved hole through open/signed_shift are the recorded finding.",
-         "Rewrites that turn a syntactic value into a computation are not applied directly at a definition of a group (that changes which definitions are available: not meaning-preserving).",
+         "Held on every execution observed: 10 sequences of 1-5 rewrites per program (renaming, parentheses, unused definitions in front / at a site / after any definition of any group, naming a subexpression, naming a function type in its enclosing group, identity wrap, if-true wrap, swapping function definitions, hoisting literal arithmetic) left acceptance and printed value unchanged; changes on inferred programs whose check passed an unresolved hole through open/signed_shift are the recorded finding.",
+         "Rewrites that turn a syntactic value into a computation are not applied directly at a definition of a group (that changes which definitions are available: not meaning-preserving). Programs are generated without recursively defined type families: gram's conversion check does not terminate once a neutral index of such a family is rewritten (DESIGN.md 9.3, D17), and a run that does not end is inconclusive here.",
          "DESIGN.md section 4, C19"),
 }
 REASON_PENDING = "check not built yet in this revision of the framework (planned; see DESIGN.md section 8)"
